@@ -139,6 +139,7 @@ type FnCtx struct {
 	spawned      []string
 	ownT         []modTarget
 	peelAlt      map[string]string
+	unsafeVals   map[string]bool
 	inPanicExit  bool
 	privateCells []*Loc
 	tagsUsed     map[string]types.Type
